@@ -39,7 +39,7 @@ def teams(tier):
                     for pre in (0, 20, 90):
                         yield {"kind": "team", "L": L, "alap": alap, "m": m, "leave": leave, "pre": pre}
                 for lim in ("1h", "2h", "3h", "3.5h"):
-                    for where in ("task", "group", "member", "grand", "grand-own", "ctask", "gctask-own", "team3-grand-own"):
+                    for where in ("task", "group", "member", "grand", "grand-own", "ctask", "gctask-own", "team3-grand-own", "task-only-r1", "task-only-r2"):
                         yield {"kind": "teamlim", "L": L, "alap": alap, "m": m, "lim": lim, "where": where}
                 for k in range(0, 5):
                     for eff2 in (1.0, 0.5):
@@ -104,6 +104,9 @@ def to_spec(it):
         rs = [{"id": "r1"}, {"id": "r2"}]
         if it["where"] == "task":
             x["limits"] = {"dailymax": it["lim"]}
+        elif it["where"].startswith("task-only-"):
+            # a task limit that names one member of the team: { dailymax 3h { resources r1 } }
+            x["limits"] = {"dailymax": (it["lim"], [it["where"][-2:]])}
         elif it["where"] == "group":
             rs = [{"id": "grp", "limits": {"dailymax": it["lim"]}, "children": rs}]
         elif it["where"] == "member":
